@@ -31,9 +31,10 @@ S = Suite(
          "steady_state_transport_solver against a DOP853 Riccati integration of the BVP",
     bound="profile families {log,power-law wind (oblique, optional veer)} x {linear, power-law, "
           "Businger-Dyer K; anisotropic Kx!=Ky!=Kz} on uniform and geometric grids, n=16 "
-          "(thorough: also 64->256 and seeded random parameters), MOST/MOSTM/CONSTANT closures "
+          "(thorough: also n=64 and seeded random parameters), MOST/MOSTM/CONSTANT closures "
           "of vertical_profiles (n=8..12), grids <= 9x8 cells, every non-constant, non-Nyquist "
-          "retained component with |T|dz^2/Kz<=1 in every coarse layer and sum Re(lam)dz<=18",
+          "retained component with |T|dz^2/Kz<=1 in every coarse layer and sum Re(lam)dz<=18; "
+          "refinement chain n -> 4n -> 16n (thorough also 64 -> 256 -> 1024)",
     rule="per component: err = max over levels |H-Hexact| / max over levels |Hexact| (conc and "
          "flux); err <= 3*max(dz/z) on every grid and err(n)/err(4n) >= 2.5 "
          "(waived when err(4n) < 1e-8)",
@@ -316,13 +317,13 @@ def generate(tier, rng):
                 yield "refine", dict(
                     wind=w, K=K, aniso=list(an), grid=g,
                     z0=0.5 if g == "uniform" else 0.1, zt=10.0, n=16,
-                    factors=[4, 16] if thorough else [4],
+                    factors=[4, 16],
                     nx=nx, ny=ny, X=X, Y=0.8 * X, modes=list(modes), level_fracs=lv,
                     seed=rng.randrange(10 ** 6))
                 if thorough:
                     yield "refine", dict(
                         wind=w, K=K, aniso=list(ANISO[(wi + ki + gi + 1) % 2]), grid=g,
-                        z0=0.5 if g == "uniform" else 0.1, zt=10.0, n=64, factors=[4],
+                        z0=0.5 if g == "uniform" else 0.1, zt=10.0, n=64, factors=[4, 16],
                         nx=ny, ny=nx, X=0.5 * X, Y=0.6 * X, modes=[512, 512],
                         level_fracs=LEVELS, seed=rng.randrange(10 ** 6))
     # closures of the real vertical_profiles
@@ -332,7 +333,7 @@ def generate(tier, rng):
         yield "closure", dict(
             closure=cl, n=8 + 2 * (i % 3), zm=5.0, wind=[3.0, 1.0] if i % 2 else [-2.0, 2.5],
             ustar=0.4 if i % 2 else 0.3, mol=mol, stretch=None if i % 3 else 8.0,
-            factors=[4, 16] if thorough else [4], nx=8, ny=6, X=(400.0, 1200.0)[i % 2],
+            factors=[4, 16], nx=8, ny=6, X=(400.0, 1200.0)[i % 2],
             Y=(300.0, 1000.0)[i % 2], level_fracs=LEVELS, seed=rng.randrange(10 ** 6))
     # seeded random members of the same families (thorough only)
     if thorough:
@@ -361,7 +362,7 @@ def generate(tier, rng):
             yield "refine", dict(
                 wind=w, K=K, aniso=[rng.uniform(0.3, 3.0), rng.uniform(0.3, 3.0)], grid=g,
                 z0=rng.uniform(0.3, 0.8) if g == "uniform" else rng.uniform(0.05, 0.3),
-                zt=rng.uniform(6.0, 15.0), n=16, factors=[4],
+                zt=rng.uniform(6.0, 15.0), n=16, factors=[4, 16],
                 nx=nx, ny=ny, X=X, Y=X * rng.uniform(0.6, 1.4), modes=[512, 512],
                 level_fracs=LEVELS, seed=rng.randrange(10 ** 6))
 
